@@ -266,6 +266,53 @@ def r_data(ctx: Ctx, model):
     ctx.floor("ModelIsotherm.__init__ fitting paths", npaths, 6)
 
 
+def r_temperature(ctx: Ctx, model):
+    """models whose equation contains the temperature (DR, DA: -R*T) get it in kelvin, whatever unit the isotherm stores"""
+    ctx.rule("F-temperature: ModelIsotherm.__init__ hands the model's __init_parameters__ the isotherm temperature in kelvin on both "
+             "routes (fit, model instance), for isotherms stored in K and in degrees Celsius")
+    mi = model.cls(MI)
+    init = mi.find_method("__init__")
+    T = Num.atom("Tstored")
+    for unit, want in (("K", T), ("°C", T + Num.const("273.15"))):
+        for route in ("fit", "instance"):
+            I = make_interp(model)
+            got = {}
+            I.overrides["pygaps.core.baseisotherm.BaseIsotherm.__init__"] = lambda I, fi, env, n: None
+            stub = lambda: Obj(kind="FitStub", label="model", attrs={"param_names": ["K"], "name": "Stub"})
+            I.overrides["pygaps.modelling.get_isotherm_model"] = lambda I, fi, env, n: stub()
+            I.overrides["pygaps.core.modelisotherm.get_isotherm_model"] = lambda I, fi, env, n: stub()
+            I.overrides["pygaps.modelling.is_model_class"] = lambda I, fi, env, n: isinstance(list(env.values())[0], Obj)
+            I.overrides["pygaps.core.modelisotherm.is_model_class"] = lambda I, fi, env, n: isinstance(list(env.values())[0], Obj)
+            I.libmeth[("FitStub", "__init_parameters__")] = lambda I, v, a, k, n, got=got: got.update({"params": a[0] if a else k.get("params")})
+            I.libmeth[("FitStub", "initial_guess")] = lambda I, v, a, k, n: {"K": Num.atom("g")}
+            I.libmeth[("FitStub", "fit")] = lambda I, v, a, k, n: None
+            I.ext["builtins.min"] = lambda I, a, k, n: Num.atom("mn")
+            I.ext["builtins.max"] = lambda I, a, k, n: Num.atom("mx")
+            I.ext["builtins.float"] = lambda I, a, k, n: a[0]
+
+            def thunk(I):
+                got.clear()
+                new = Obj(cls=mi, label="new", attrs={"_temperature": T, "temperature_unit": unit})
+                kw = {"branch": "ads", "material": "m", "adsorbate": "a", "temperature": T, "temperature_unit": unit}
+                if route == "fit":
+                    kw.update({"model": "Stub", "pressure": Arr(Num.atom("P"), kind="array"), "loading": Arr(Num.atom("L"), kind="array")})
+                else:
+                    kw.update({"model": stub()})
+                I.call_func(init, [], kw, None, self_obj=new)
+                return dict(got)
+            for oc in I.explore(thunk):
+                if oc.kind != "ok":
+                    continue
+                prm = oc.value.get("params")
+                tval = prm.get("temperature") if isinstance(prm, dict) else None
+                ok = isinstance(tval, Num) and tval == want
+                ctx.ob(ok, Finding("C12.F-temperature", init.where, f"init|{route}|temperature_unit={unit}",
+                                   f"ModelIsotherm({route} route, temperature={T.canon()} {unit}) calls __init_parameters__ with temperature "
+                                   f"{I.describe(tval)}; required {want.canon()} (kelvin): DR / DA compute -R*T from it, so the fitted curve of the "
+                                   "same data depends on the temperature unit the isotherm is stored in"),
+                       nontrivial_key=("temperature", route, unit))
+
+
 def r_best(ctx: Ctx, model):
     ctx.rule("F-best: guess() == argmin rmse over the attempts that did not raise (all orderings x failure patterns)")
     guess = model.func(f"{MI}.guess")
@@ -391,6 +438,7 @@ def run(ctx: Ctx):
     ctx.assume("scipy.optimize.least_squares returns res.x, res.fun, res.success of one optimisation")
     r_fit(ctx, model)
     r_data(ctx, model)
+    r_temperature(ctx, model)
     r_best(ctx, model)
     r_branch(ctx, model)
     from ..sites import no_memoisation
